@@ -328,11 +328,26 @@ def run_check(mod, tier, seed):
     errors = []
     if jobs:
         nproc = min(NPROC, len(jobs))
-        if nproc <= 1 or os.environ.get("VERIF_INLINE"):
+        inline = nproc <= 1 or bool(os.environ.get("VERIF_INLINE"))
+        executor = None
+        if inline:
             results = map(_worker, jobs)
         else:
-            pool = multiprocessing.get_context("fork").Pool(nproc, maxtasksperchild=None)
-            results = pool.imap_unordered(_worker, jobs, chunksize=1)
+            # ProcessPoolExecutor (not multiprocessing.Pool): a worker that dies (e.g. OOM-killed) breaks
+            # the pool and surfaces as a harness error instead of hanging the run forever
+            import concurrent.futures as cf
+
+            executor = cf.ProcessPoolExecutor(nproc, mp_context=multiprocessing.get_context("fork"))
+            futures = [executor.submit(_worker, j) for j in jobs]
+
+            def _results():
+                for fut in cf.as_completed(futures):
+                    try:
+                        yield fut.result()
+                    except BaseException as e:  # noqa: BLE001 - BrokenProcessPool etc.
+                        yield ("error", "worker process failed: %s: %s" % (type(e).__name__, e))
+
+            results = _results()
         stopped_early = False
         for status, payload in results:
             if status == "error":
@@ -343,12 +358,17 @@ def run_check(mod, tier, seed):
                 if payload.violations and os.environ.get("VERIF_STOP_ON_VIOLATION"):
                     stopped_early = True
                     break
-        if nproc > 1 and not os.environ.get("VERIF_INLINE"):
+        if executor is not None:
             if stopped_early:
-                pool.terminate()
+                procs = list(getattr(executor, "_processes", {}).values())
+                executor.shutdown(wait=False, cancel_futures=True)
+                for pr in procs:
+                    try:
+                        pr.terminate()
+                    except Exception:  # noqa: BLE001
+                        pass
             else:
-                pool.close()
-            pool.join()
+                executor.shutdown(wait=True)
 
     seen = set()
     for v in total.violations:
